@@ -27,7 +27,7 @@ EXPLICIT = ("begin", "await", "task", "send")   # gates that the harness code re
 
 
 class Sched:
-    def __init__(self, order, patience=3.0, mode="sync", gates=None, ungated_until=None):
+    def __init__(self, order, patience=8.0, mode="sync", gates=None, ungated_until=None):
         self.mode = mode                    # "sync": turns at synchronisation operations; "line": turns at source lines
         self.gates = gates or set()
         self.ungated = dict(ungated_until or {})   # thread -> explicit sync kind that ends its ungated set-up prefix
@@ -334,7 +334,7 @@ class Ghost:
             self._cv.notify_all()
 
 
-def run_schedule(programs: dict, order, env_builder, patience=3.0, settle=1.0, mode="sync", gates=None, ungated_until=None):
+def run_schedule(programs: dict, order, env_builder, patience=8.0, settle=1.0, mode="sync", gates=None, ungated_until=None):
     """programs: {thread name: (source, args dict)} of the static harness threads (setup first, run
     synchronously).  env_builder(sched, G) -> dict of globals for the programs (real classes, EM,
     TASKn callables).  Returns (ghost dict, finished thread names, blocked thread names, sched)."""
@@ -389,7 +389,7 @@ def run_schedule(programs: dict, order, env_builder, patience=3.0, settle=1.0, m
             threads[name] = make(name, src, args)
     for t in threads.values():
         t.start()
-    deadline = time.time() + 30
+    deadline = time.time() + 90
     # wait until the schedule is consumed (or diverged), then let things settle
     while time.time() < deadline:
         with sched.cv:
